@@ -123,6 +123,54 @@ func (t *rejectTxn) Commit(ctx context.Context) ([]keyvalue.OpResult, error) {
 }
 func (t *rejectTxn) Abort() error { return t.inner.Abort() }
 
+// ------------------------------------------------------------------ locking TransactionStore over the lazy plain store
+
+// lockStore is a TransactionStore the way mem's is -- Transaction() takes a store-wide lock that Commit/Abort release --
+// but over the plain map store, so records are lazy and every store call, including the lazy loads made while a
+// transaction is open, can be the one that fails. A transaction the FS opens and then abandons on an error path leaves
+// the lock held: the next operation hangs (caught by the watchdog).
+type lockStore struct {
+	*kvstore.Store
+	lock chan struct{}
+}
+
+type lockTxn struct {
+	keyvalue.Transaction
+	st   *lockStore
+	done bool
+}
+
+func newLockStore(inner *kvstore.Store) *lockStore {
+	return &lockStore{Store: inner, lock: make(chan struct{}, 1)}
+}
+
+func (l *lockStore) Transaction(o keyvalue.TransactionOptions) (keyvalue.Transaction, error) {
+	l.lock <- struct{}{}
+	t, err := keyvalue.TransactionOrSerial(l.Store, o) // the plain store is not a TransactionStore: the serial fallback
+	if err != nil {
+		<-l.lock
+		return nil, err
+	}
+	return &lockTxn{Transaction: t, st: l}, nil
+}
+
+func (t *lockTxn) release() {
+	if !t.done {
+		t.done = true
+		<-t.st.lock
+	}
+}
+
+func (t *lockTxn) Commit(ctx context.Context) ([]keyvalue.OpResult, error) {
+	defer t.release()
+	return t.Transaction.Commit(ctx)
+}
+
+func (t *lockTxn) Abort() error {
+	defer t.release()
+	return t.Transaction.Abort()
+}
+
 // ------------------------------------------------------------------ environment
 
 type env struct {
@@ -139,6 +187,9 @@ func newEnv(kind string, failAt int) (*env, error) {
 	if kind == "plain" {
 		e.plain = kvstore.New()
 		st = e.plain
+	} else if kind == "locking" {
+		e.plain = kvstore.New()
+		st = newLockStore(e.plain)
 	} else {
 		e.reject = &rejectStore{inner: mem.NewStoreForVerif()}
 		st = e.reject
@@ -512,11 +563,12 @@ func run(t *testing.T, kind string) {
 	})
 }
 
-func TestPlain(t *testing.T)  { run(t, "plain") }
-func TestReject(t *testing.T) { run(t, "reject") }
+func TestPlain(t *testing.T)   { run(t, "plain") }
+func TestReject(t *testing.T)  { run(t, "reject") }
+func TestLocking(t *testing.T) { run(t, "locking") }
 
 func TestReplayAll(t *testing.T) {
-	for _, kind := range []string{"plain", "reject"} {
+	for _, kind := range []string{"plain", "reject", "locking"} {
 		kind := kind
 		t.Run(kind, func(t *testing.T) {
 			vf.Replay(t, kind, func(steps []json.RawMessage) (string, string) {
